@@ -1,6 +1,6 @@
 (* C11 — depth-limited decoding is transparent, monotone and bounded by the nesting. *)
 Require Import Scale.Bytes Scale.Eres Scale.Prog Scale.ProgFacts Scale.ProgMore Scale.Chunks Scale.Monitors Scale.CompactImpl
-  Scale.CompactSpec Scale.CompactProofs Scale.CompactTheorems Scale.Utf8 Scale.Codec Scale.CodecEnc Scale.CodecDec Scale.CodecRt Scale.CodecMore Scale.TraceEq Scale.Depth.
+  Scale.CompactSpec Scale.CompactProofs Scale.CompactTheorems Scale.Utf8 Scale.Codec Scale.CodecEnc Scale.CodecDec Scale.CodecRt Scale.CodecMore Scale.TraceEq Scale.Depth Scale.Rec.
 
 (* for EVERY decoder program (hence every type), input and limit: the limited decode returns
    what the unlimited decode returns iff the nesting of descend/ascend in its trace is at
@@ -42,14 +42,14 @@ Proof. repeat split; vm_compute; reflexivity. Qed.
    value (ddepth: one level per Box/Rc/Arc and per non-bulk sequence/list/set/map/heap, none for
    options, tuples, arrays, variants, strings and sequences of fixed-width primitives) *)
 Theorem C11_trace_depth_is_value_depth : forall t v bs known rest,
-  nobits t = true -> wf_ty t = true -> wf t v = true -> enc_spec t v = EOk bs ->
+  wf_ty t = true -> wf t v = true -> enc_spec t v = EOk bs ->
   max_depth 0 (snd (runt (dec t) known (bs ++ rest))) = ddepth t v.
 Proof. exact trace_depth_is_value_depth. Qed.
 
 (* hence, for every well-formed value: decoding its encoding with limit L yields the value when
    L >= its nesting depth and an error when it is deeper *)
 Theorem C11_limit_on_encodings : forall t v bs known rest L,
-  nobits t = true -> wf_ty t = true -> wf t v = true -> enc_spec t v = EOk bs ->
+  wf_ty t = true -> wf t v = true -> enc_spec t v = EOk bs ->
   if ddepth t v <=? L
   then exists d, run (depthmon L) (dec t) known (bs ++ rest) 0 = ROk (canon t v) rest d
   else exists d, run (depthmon L) (dec t) known (bs ++ rest) 0 = RErr d.
@@ -58,8 +58,48 @@ Proof. exact depth_limit_on_encodings. Qed.
 Example C11_value_nonvacuous :
   let t := TColl CVec 24 (TBox 8 (TOption (TColl CList 1 (TPrim 1)))) in
   let v := VSeq [VNone; VSome (VSeq [VN 1; VN 2])] in
-  nobits t = true /\ wf_ty t = true /\ wf t v = true /\
+  wf_ty t = true /\ wf t v = true /\
   enc_spec t v = EOk [x08; x00; x01; x08; x01; x02] /\ ddepth t v = 3.
+Proof. repeat split; vm_compute; reflexivity. Qed.
+
+(* recursive derived types (Rec.v: an index byte, then fields that are universe types or recursive
+   occurrences held by Box<Self>, Option<Box<Self>>, Vec<Self>).  The decoder recurses natively: the
+   model gives it a recursion budget F - the frames the native stack can hold - and answers NoFuel
+   when it runs out, the model's rendering of a stack overflow.  All the theorems above apply to it
+   (they hold for every program).  Stack safety: with a depth limit L below the budget, the limited
+   decode never runs out, whatever the input (adversarially deep input is rejected after at most
+   L+1 frames) ... *)
+Theorem C11_recursive_never_overflows : forall d F L known bs,
+  wf_rdef d = true -> L < N.of_nat F -> run (depthmon L) (rdec F d) known bs 0 <> RNoFuel.
+Proof. exact rec_depth_limit_never_overflows. Qed.
+
+(* ... and its answer is the same for every budget above L *)
+Theorem C11_recursive_budget_irrelevant : forall d F F' L known bs,
+  wf_rdef d = true -> L < N.of_nat F -> (F <= F')%nat ->
+  run (depthmon L) (rdec F' d) known bs 0 = run (depthmon L) (rdec F d) known bs 0.
+Proof. exact rec_depth_limit_budget_irrelevant. Qed.
+
+(* the reason: decode traces are well nested, and running out of a budget of F frames means the
+   trace nests at least F levels deep *)
+Theorem C11_recursive_overflow_means_deep : forall d, wf_rdef d = true -> forall F known bs evs,
+  runt (rdec F d) known bs = (ONoFuel, evs) -> forall d0, d0 + N.of_nat F <= max_depth d0 evs.
+Proof. intros d Hw F. exact (proj2 (rdec_nested d Hw F)). Qed.
+
+(* every decoder of the universe leaves the nesting where it found it when it succeeds, on every
+   input (not only on encodings) *)
+Theorem C11_traces_well_nested : forall t known bs v r evs,
+  runt (dec t) known bs = (OOk v r, evs) -> forall d, end_depth d evs = d.
+Proof. exact dec_bok. Qed.
+
+Definition ex_tree : rdef := [(0, [FTy (TPrim 1)]); (1, [FBox 32]); (2, [FBox 32; FTy (TPrim 2); FOptBox 32]); (5, [FVec 32])].
+Example C11_recursive_nonvacuous :
+  wf_rdef ex_tree = true /\
+  (* Node(Node(Node(Leaf 7))) : nesting 3 *)
+  run (depthmon 3) (rdec 4 ex_tree) true [x01; x01; x01; x00; x07] 0
+    = ROk (VVar 1 (VPair (VVar 1 (VPair (VVar 1 (VPair (VVar 0 (VPair (VN 7) VUnit)) VUnit)) VUnit)) VUnit)) [] 0 /\
+  run (depthmon 2) (rdec 3 ex_tree) true [x01; x01; x01; x00; x07] 0 = RErr 3 /\
+  (* without a limit a budget of 3 frames overflows on the same input *)
+  runo (rdec 3 ex_tree) true [x01; x01; x01; x00; x07] = ONoFuel.
 Proof. repeat split; vm_compute; reflexivity. Qed.
 
 Print Assumptions C11_exact.
@@ -68,3 +108,7 @@ Print Assumptions C11_error_preserved.
 Print Assumptions C11_monotone.
 Print Assumptions C11_trace_depth_is_value_depth.
 Print Assumptions C11_limit_on_encodings.
+Print Assumptions C11_recursive_never_overflows.
+Print Assumptions C11_recursive_budget_irrelevant.
+Print Assumptions C11_recursive_overflow_means_deep.
+Print Assumptions C11_traces_well_nested.
